@@ -5,7 +5,7 @@ namespace Rsactor.Ties
 open Rsactor.Extracted
 
 /-- dead-letter census: every record call sits in a block that builds exactly one error, of the variant
-    matching the reason, with a label of the method's family; ten sites, at the ten failing branches of src/actor_ref.rs, and none anywhere else in the crate -/
+    matching the reason, with a label of the method's family; ten sites, at the ten failing branches of src/actor_ref.rs, and none anywhere else in the crate; the recorder itself is unconditional (counter bump, one warn! event) -/
 theorem dead_letter_census :
     dead_letter_sites.map (fun (f, r, _, errs, fam) => (f, r, errs, fam)) =
       [("tell", "ActorStopped", ["Send"], true), ("tell_with_timeout", "Timeout", ["Timeout"], true),
@@ -16,6 +16,6 @@ theorem dead_letter_census :
        ("blocking_ask_no_timeout", "ActorStopped", ["Send"], true),
        ("blocking_ask_no_timeout", "ReplyDropped", ["Receive"], true),
        ("blocking_ask_with_timeout_impl", "Timeout", ["Timeout"], true)] ∧
-    dead_letter_sites_elsewhere = 0 := ⟨rfl, rfl⟩
+    dead_letter_sites_elsewhere = 0 ∧ dead_letter_record_unconditional = true := ⟨rfl, rfl, rfl⟩
 
 end Rsactor.Ties
